@@ -54,7 +54,7 @@ def build_prog(case):
         e = ["src", "a"]
         for l in layers:
             e = ["f_" + l["kind"], e, l.get("fn"), l.get("err")]
-        comp = ["complete", "a"] + (["value", ["c", "a", 0]] if inp[0] == "value" else ["error", inp[1]] if inp[0] == "error" else ["cancel"])
+        comp = ["complete", "a"] + (["value", ["c", "a", 0]] if inp[0] == "value" else ["error"] + list(inp[1:]) if inp[0] == "error" else ["cancel"])
         if timing == "done-before":
             setup += [comp, ["expr", "S", e]]
         elif timing == "later-same-thread":
@@ -160,6 +160,11 @@ def evaluate(case):
             # an exception that came from the callable and was passed through (or re-raised): original raise site kept
             if exp.tag and exp.tag[0] == "c" and case["form"] == "exec" and "S.fn" not in (st.get("tb_fns") or []):
                 bad("traceback-lost-original-raise-site", state=st)
+            if exp.tag and exp.tag[0] == "src" and case["form"] == "f":
+                # the source future's own exception, passed through: still carrying ITS traceback, nobody else's
+                tbn = st.get("tb_names") or []
+                if "verif_orig_raise_site" not in tbn or "verif_unrelated_site" in tbn:
+                    bad("traceback-of-passed-through-exception-changed", tb=tbn)
     return viols, info
 
 
@@ -190,7 +195,8 @@ def inner_variants(layers):
 
 def enum_cases(part, parts):
     idx = 0
-    inputs = [["value"], ["error", "E1"], ["cancel"]]
+    # (EF: a falsy exception instance; in_handler: the input is failed by a thread that is handling another exception)
+    inputs = [["value"], ["error", "E1"], ["cancel"], ["error", "EF"], ["error", "E1", "in_handler"]]
     for form in ("exec", "f"):
         for kind, FN, ERR in (("map", MAP_FN, MAP_ERR), ("flat_map", FLAT_FN, FLAT_ERR)):
             for fn in FN:
@@ -199,6 +205,8 @@ def enum_cases(part, parts):
                     for inp in inputs:
                         for timing in ("done-before", "later-same-thread", "other-thread"):
                             if form == "exec" and timing == "done-before" and inp[0] == "cancel":
+                                continue
+                            if form == "exec" and len(inp) > 2:
                                 continue
                             for inner in inner_variants(layers):
                                 idx += 1
@@ -285,7 +293,7 @@ def case_strategy():
                     used.add(b[0][2])
         inner = dict((n, draw(st.sampled_from(INNER))) for n in sorted(used))
         form = draw(st.sampled_from(["exec", "f"]))
-        inp = draw(st.sampled_from([["value"], ["value"], ["error", "E1"], ["error", "E3"], ["cancel"]]))
+        inp = draw(st.sampled_from([["value"], ["value"], ["error", "E1"], ["error", "E3"], ["cancel"], ["error", "EF"]]))
         timing = draw(st.sampled_from(["done-before", "later-same-thread", "other-thread", "other-thread"]))
         if form == "exec" and timing == "done-before" and inp[0] == "cancel":
             timing = "other-thread"
